@@ -3,6 +3,7 @@
    the correspondence run compares it with the C implementation on every digest),
    cache key = the same djb2a-based stand-in the harness installs. -/
 import LtVerif.Model.Auth
+import LtVerif.Model.AuthSplay
 namespace Driver
 open LtVerif LtVerif.B LtVerif.Auth
 
@@ -270,7 +271,61 @@ def renderParams (dp : Params) : String :=
     f "algorithm" dp.algorithm, f "qop" dp.qop, f "cnonce" dp.cnonce, f "nc" dp.nc, f "response" dp.response,
     f "username*" dp.userstar, f "userhash" dp.userhash]
 
+
+/-! ### auth.cache container (algo_splaytree.c + the mod_auth.c functions on it) -/
+
+/-- `(` left key `:` ctime right `)`, `.` = NULL -/
+def splayShape : AuthSplay.Tree Int → String
+  | .nil => "."
+  | .node l k v r => "(" ++ splayShape l ++ toString k ++ ":" ++ toString v ++ splayShape r ++ ")"
+
+/-- ops: `q<key>` http_auth_cache_query; `i<key>,<ctime>` query + http_auth_cache_insert (the order
+    mod_auth_check_basic()/mod_auth_digest_get() use); `c<cur>` mod_auth_periodic_cleanup -/
+def splayOps (maxAge : Int) (cap : Nat) : AuthSplay.Tree Int → List String → List String → Option (List String)
+  | _, [], acc => some acc.reverse
+  | t, op :: ops, acc =>
+    let arg := (op.drop 1).toString
+    if op.startsWith "q" then
+      match parseInt arg with
+      | some k =>
+        let (t', r) := AuthSplay.cacheQuery t k
+        splayOps maxAge cap t' ops (((match r with | some v => toString v | none => "-") ++ splayShape t') :: acc)
+      | none => none
+    else if op.startsWith "i" then
+      match arg.splitOn "," with
+      | [ks, cs] =>
+        match parseInt ks, parseInt cs with
+        | some k, some c =>
+          let (t', r) := AuthSplay.cacheQuery t k
+          let t'' := AuthSplay.cacheInsert t' k c
+          splayOps maxAge cap t'' ops (((match r with | some v => toString v | none => "-") ++ splayShape t'') :: acc)
+        | _, _ => none
+      | _ => none
+    else if op.startsWith "I" then                      -- as `i`, without the tree dump (large trees)
+      match arg.splitOn "," with
+      | [ks, cs] =>
+        match parseInt ks, parseInt cs with
+        | some k, some c =>
+          let (t', r) := AuthSplay.cacheQuery t k
+          splayOps maxAge cap (AuthSplay.cacheInsert t' k c) ops ((match r with | some v => toString v | none => "-") :: acc)
+        | _, _ => none
+      | _ => none
+    else if op.startsWith "c" then
+      match parseInt arg with
+      | some cur =>
+        let t' := AuthSplay.periodicCleanup (fun ct => decide (cur - ct > maxAge)) cap t
+        splayOps maxAge cap t' ops (splayShape t' :: acc)
+      | none => none
+    else none
+
 def authLine : List String → String
+  | "splay" :: maxAge :: cap :: ops =>
+    match parseInt maxAge, cap.toNat? with
+    | some m, some c =>
+      (match splayOps m c .nil ops [] with
+       | some outs => if outs.isEmpty then "-" else String.intercalate " " outs
+       | none => "bad-op")
+    | _, _ => "bad-op"
   | ["parse", h] =>
     match ofHex h with
     | some b => renderParams (parseAuthorization b)
